@@ -54,5 +54,13 @@ if 'E2E3' in ob and 'C02' in ob:
     for t in ob['E2E3']['theorems']:
         if t not in ob['C02']['theorems']:
             ob['C02']['theorems'].append(t)
+# the resolved-source rule (remove_resolved) is an additional stage of C07's check ("fits ... memory-mapped or not, agree")
+if 'RES' in ob and 'C07' in ob:
+    for m in ob['RES']['modules']:
+        if m not in ob['C07']['modules']:
+            ob['C07']['modules'].append(m)
+    for t in ob['RES']['theorems']:
+        if t not in ob['C07']['theorems']:
+            ob['C07']['theorems'].append(t)
 json.dump(ob, open(V + '/lean/obligations.json', 'w'), indent=1)
 print('modules', len(mods), 'handlers', handlers, 'obligations', sorted(ob))
